@@ -8,7 +8,10 @@ use serde::{Deserialize, Serialize};
 use serde_json::Value as J;
 use std::collections::BTreeMap;
 
-pub const KEYS: [&str; 3] = ["a", "ab", "a_b"]; // related on purpose: prefix, and prefix + underscore (conflict records are named $conflicts_<key>_<id>)
+// (indices 3..6 are used by the family odd-key-names only: a name with `*` inside and at its end, the empty name, a name
+// that contains the prefix of the conflict records)
+pub const KEYS: [&str; 6] = ["a", "ab", "a_b", "a*b*", "", "n$conflicts_w"];
+const KEYS_OLD: [&str; 3] = ["a", "ab", "a_b"]; // related on purpose: prefix, and prefix + underscore (conflict records are named $conflicts_<key>_<id>)
 
 #[derive(Clone, Debug, Serialize, Deserialize, PartialEq)]
 pub enum Step {
@@ -110,7 +113,8 @@ fn get_safe(s: &mut Session, node: &Node, k: &str) -> (String, i32) {
 fn unresolved_on_server(w: &mut World) -> Vec<String> {
     let (r, _) = w.admin.send(&w.node, "keys $conflicts_");
     let names: Vec<String> = match r {
-        Response::Value { value, .. } => value.split(',').filter(|s| !s.is_empty()).map(|s| s.to_string()).collect(),
+        // (`keys` matches by contains: the records are the names that START with the prefix)
+        Response::Value { value, .. } => value.split(',').filter(|s| s.starts_with("$conflicts_")).map(|s| s.to_string()).collect(),
         _ => vec![],
     };
     let mut out = vec![];
@@ -220,7 +224,11 @@ pub fn step(w: &mut World, st: &Step) -> Option<(String, String)> {
                 return Some(("C13|arbiter-refused".into(), resp_text(&r)));
             }
             w.arbiter_ever = true;
-            let mut got: Vec<u64> = first.iter().chain(s.drain().iter()).filter_map(|l| parse_notice(l)).map(|n| n.opp_id).collect();
+            let lines: Vec<String> = first.iter().cloned().chain(s.drain().into_iter()).collect();
+            if let Some(stray) = lines.iter().find(|l| parse_notice(l).is_none()) {
+                return Some(("C13|new-arbiter-inbox|sent-something-that-is-no-conflict-notice".into(), format!("a newly registered arbiter received {:?}: not the notice of an unresolved conflict (all it received: {:?})", stray, lines)));
+            }
+            let mut got: Vec<u64> = lines.iter().filter_map(|l| parse_notice(l)).map(|n| n.opp_id).collect();
             got.sort();
             let mut want: Vec<u64> = w.keys.values().flat_map(|k| k.pending.iter().map(|n| n.opp_id)).collect();
             want.sort();
@@ -343,6 +351,18 @@ fn alphabet() -> Vec<Step> {
         Step::ArbiterConnect { a: 0 },
         Step::ArbiterConnect { a: 1 },
         Step::ArbiterDisconnect { a: 0 },
+        Step::Resolve { a: 0, which: 0, accept: true },
+        Step::Resolve { a: 0, which: 1, accept: false },
+    ]
+}
+
+fn odd_alphabet(k: usize) -> Vec<Step> {
+    vec![
+        Step::PlainSet { k },
+        Step::SetSafeStale { k },
+        Step::SetSafeFresh { k },
+        Step::ArbiterConnect { a: 0 },
+        Step::ArbiterConnect { a: 1 },
         Step::Resolve { a: 0, which: 0, accept: true },
         Step::Resolve { a: 0, which: 1, accept: false },
     ]
@@ -586,7 +606,7 @@ pub fn run_conc(ctx: &Ctx, case: &CCase) -> Outcome {
     let mut unresolved: Vec<(String, String)> = vec![];
     if fail.is_none() {
         if let (Response::Value { value, .. }, _) = admin.send(&node, "keys $conflicts_") {
-            for n in value.split(',').filter(|s| !s.is_empty()) {
+            for n in value.split(',').filter(|s| s.starts_with("$conflicts_")) {
                 if let (Response::Value { value, .. }, _) = admin.send(&node, &format!("get {}", n)) {
                     if !value.starts_with("resolved") && value != "<Empty>" {
                         unresolved.push((n.to_string(), value));
@@ -653,6 +673,15 @@ pub fn run(ctx: &Ctx, rep: &mut Report) {
             break;
         }
         enumerate(ctx, rep, &format!("exhaustive-len{}", len), sequences(&alpha, len), |c| run_case(ctx, c));
+    }
+    for k in 3..6 {
+        let alpha = odd_alphabet(k);
+        for len in 1..=(ctx.amount(4, 5) as usize) {
+            if !rep.failures.is_empty() {
+                break;
+            }
+            enumerate(ctx, rep, &format!("odd-key-names-{}-len{}", k, len), sequences(&alpha, len), |c| run_case(ctx, c));
+        }
     }
     if rep.failures.is_empty() {
         let mut cases = vec![];
